@@ -42,7 +42,7 @@ from io import StringIO
 import six
 from six import integer_types, text_type
 
-from decimal import Decimal
+from decimal import Decimal, InvalidOperation
 
 from warnings import warn
 
@@ -860,7 +860,9 @@ class parser(object):
             res.month = month
             res.day = day
 
-        except (IndexError, ValueError):
+        except (IndexError, ValueError, InvalidOperation):
+            # InvalidOperation: arithmetic on a number with more digits than
+            # the decimal context holds (no date component is that long)
             return None, None
 
         if not info.validate(res):
